@@ -60,6 +60,10 @@ EXPLICIT = [
            ["T", [["T", [["i", "1"], ["n"], ["s", ""], ["i", "-2"]]], ["T", []]]]]],
     ["S", [["T", [["c", "1.0", "0.0"]]], ["T", [["i", "1"], ["i", "0"]]], ["T", [["i", "2"]]]]],
     ["D", [[["T", [["c", "1.0", "0.0"]]], ["s", "v"]], [["T", [["i", "1"], ["i", "0"]]], ["s", "v"]], [["T", [["i", "2"]]], ["s", "v"]]]],
+    # tuples holding nan: sorted() never raises on them and never orders them
+    ["D", [[["T", [["f", "nan"], ["i", "1"]]], ["i", "1"]], [["T", [["f", "0.5"], ["i", "2"]]], ["i", "2"]], [["T", [["f", "1.5"], ["i", "0"]]], ["i", "3"]]]],
+    ["S", [["T", [["f", "nan"], ["i", "1"]]], ["T", [["f", "0.5"], ["i", "2"]]], ["T", [["f", "1.5"], ["i", "0"]]], ["T", [["f", "0.25"], ["i", "7"]]]]],
+    ["F", [["T", [["s", "k"], ["f", "nan"]]], ["T", [["s", "k"], ["f", "0.5"]]], ["T", [["s", "k"], ["f", "1.5"]]], ["T", [["s", "j"], ["f", "2.5"]]]]],
     # the same large payload twice in one value (shared vs distinct equal objects must hash alike)
     ["L", [["Z", "bytes", 1 << 20, 7], ["Z", "bytes", 1 << 20, 7]]],
     ["T", [["Z", "zeros", (1 << 20) + 17, 0], ["i", "1"], ["Z", "zeros", (1 << 20) + 17, 0]]],
